@@ -2,7 +2,7 @@
    files and followed by Print Assumptions; Examples pin the statements to concrete
    inputs and show that the hypotheses are satisfiable. *)
 From Common Require Import Prelude.
-From C15 Require Import Model Proofs ProofsCodec ProofsFixed.
+From C15 Require Import Model Proofs ProofsCodec ProofsFixed ProofsInto.
 Local Open Scope Z_scope.
 
 (* ================================================================= round trip *)
@@ -83,6 +83,53 @@ Example roundtrip_example :
   decode_seq ex_shapes (firstn 78 (encode_seq ex_values)) = None /\
   decode_seq ex_shapes (firstn 17 (encode_seq ex_values)) = None.
 Proof. vm_compute. repeat split; reflexivity. Qed.
+
+(* ============================================== reading into existing objects *)
+
+(* destination_independent: operator>> reads INTO the object it is given (memcpy over a POD,
+   resize-then-fill for strings and vectors - element by element into the elements the
+   destination holds after the resize -, reset for array wrappers); whatever that object held
+   before, the result is what the fresh reader returns *)
+Theorem destination_independent : forall sh old r, get_into sh old r = get sh r.
+Proof. exact ProofsInto.get_into_eq. Qed.
+Print Assumptions destination_independent.
+
+(* read_into old (encode v ++ r) = (v, r) for EVERY old: stale content is gone *)
+Theorem read_into_encode : forall sh v r old,
+  typed sh v = true -> len (encode v ++ r) < 2 ^ 64 -> read_into sh old (encode v ++ r) = Some (v, r).
+Proof. exact ProofsInto.read_into_encode. Qed.
+Print Assumptions read_into_encode.
+
+(* a sequence read into pre-filled destinations [olds], and the same stream read a second time
+   into the same destination objects (now holding [olds2], whatever the first pass left) *)
+Theorem seq_read_into : forall shs vs r olds olds2,
+  Forall2 (fun sh v => typed sh v = true) shs vs -> len (encode_seq vs ++ r) < 2 ^ 64 ->
+  exists rd, get_into_seq shs olds (reader_of (encode_seq vs ++ r)) = ROk vs rd /\
+             r_cur rd = len (encode_seq vs) /\
+             get_into_seq shs olds2 (reader_of (encode_seq vs ++ r)) = ROk vs rd.
+Proof. exact ProofsInto.seq_read_into. Qed.
+Print Assumptions seq_read_into.
+
+(* reserve + push_back instead of resize + rh[i]: correct only for an empty destination ... *)
+Theorem vec_append_fresh_ok : forall sh' r, get_into_vec_append sh' (VVec []) r = get (SVec sh') r.
+Proof. exact ProofsInto.vec_append_fresh_ok. Qed.
+Print Assumptions vec_append_fresh_ok.
+
+(* ... and wrong for a reused one: [7] read over by the stream of [1] gives [7; 1] *)
+Theorem vec_append_refuted :
+  exists sh' old v, typed (SVec sh') v = true /\ typed (SVec sh') old = true /\
+    get_into (SVec sh') old (reader_of (encode v)) = ROk v {| r_buf := encode v; r_cur := len (encode v) |} /\
+    exists v', get_into_vec_append sh' old (reader_of (encode v)) = ROk v' {| r_buf := encode v; r_cur := len (encode v) |} /\ v' <> v.
+Proof. exact ProofsInto.vec_append_refuted. Qed.
+Print Assumptions vec_append_refuted.
+
+(* a vector of two strings read into a destination that held three longer ones; an empty
+   vector read into a non-empty one *)
+Example read_into_example :
+  read_into (SVec SStr) (VVec [VStr [1; 2; 3]%N; VStr [4; 5; 6; 7]%N; VStr [8]%N])
+            (encode (VVec [VStr [97]%N; VStr []])) = Some (VVec [VStr [97]%N; VStr []], []) /\
+  read_into (SVec (SRaw 1)) (VVec [VRaw [9]%N]) (encode (VVec [])) = Some (VVec [], []).
+Proof. vm_compute. split; reflexivity. Qed.
 
 (* ====================================================================== reader *)
 
